@@ -118,3 +118,48 @@ Proof.
   split; [exact H1|]. split; [exact H2|]. split; [apply groups_coherent_b_sound; exact H3|].
   exact k1x_transfer_loses_content.
 Qed.
+
+(* ---- dedupePaths on an order-sensitive include list (finding dedupe-order-sensitive-includes) ----
+   tree a/{k, x/{y,z}}, l -> t, t;  IncludePatterns [a, !a/x, a/x/y]:
+   without FollowPaths a/x/y is included (re-inclusion after the exception); with the unrelated
+   FollowPaths [l] NewFilterFS hands [a, !a/x, l, t] to the matcher: a/x/y was dropped as "below a" *)
+From FS Require Model.FollowLinks Model.FilterOpt.
+Definition st_sym (target : string) : stat :=
+  {| st_path := []; st_mode := (ModeSymlink + 511)%N; st_uid := 0%N; st_gid := 0%N; st_size := 1%N; st_mtime := 0%N;
+     st_linkname := bs target; st_devmajor := 0%N; st_devminor := 0%N; st_xattrs := [] |}.
+Definition dd_view : list node :=
+  [ D "a" [F "k"; D "x" [F "y"; F "z"]]; Node (bs "l") (st_sym "t") [] []; F "t" ].
+Definition dd_inc : list (list N) := [bs "a"; bs "!a/x"; bs "a/x/y"].
+Definition dd_follow : list (list N) := [bs "l"].
+Definition dd_cfg (l : list (list N)) : cfg :=
+  match mk_cfg l [] with Some c => c | None => nopat_cfg end.
+
+Lemma dd_assembled :
+  wf_source dd_view = true /\
+  FilterOpt.assemble_includes dd_view dd_inc [] = FollowLinks.Ok dd_inc /\
+  FilterOpt.stated_includes dd_view dd_inc dd_follow = FollowLinks.Ok [bs "a"; bs "!a/x"; bs "a/x/y"; bs "l"; bs "t"] /\
+  FilterOpt.assemble_includes dd_view dd_inc dd_follow = FollowLinks.Ok [bs "a"; bs "!a/x"; bs "l"; bs "t"] /\
+  paths (sender_view pm_lit id_map (dd_cfg [bs "a"; bs "!a/x"; bs "a/x/y"; bs "l"; bs "t"]) dd_view)
+    = [bs "a"; bs "a/k"; bs "a/x"; bs "a/x/y"; bs "l"; bs "t"] /\
+  paths (sender_view pm_lit id_map (dd_cfg [bs "a"; bs "!a/x"; bs "l"; bs "t"]) dd_view)
+    = [bs "a"; bs "a/k"; bs "l"; bs "t"] /\
+  filter_open pm_lit (dd_cfg [bs "a"; bs "!a/x"; bs "a/x/y"; bs "l"; bs "t"]) (bs "a/x/y") = true /\
+  filter_open pm_lit (dd_cfg [bs "a"; bs "!a/x"; bs "l"; bs "t"]) (bs "a/x/y") = false.
+Proof. vm_compute. repeat split; reflexivity. Qed.
+
+Lemma assembled_not_stated_refuted_proof :
+  exists view inc follow la ls ca cs p,
+    wf_source view = true /\
+    FilterOpt.assemble_includes view inc follow = FollowLinks.Ok la /\
+    FilterOpt.stated_includes view inc follow = FollowLinks.Ok ls /\
+    mk_cfg la [] = Some ca /\ mk_cfg ls [] = Some cs /\
+    source_file view p = true /\
+    filter_open pm_lit ca p <> filter_open pm_lit cs p /\
+    reported pm_lit id_map ca view p <> reported pm_lit id_map cs view p.
+Proof.
+  exists dd_view, dd_inc, dd_follow, [bs "a"; bs "!a/x"; bs "l"; bs "t"], [bs "a"; bs "!a/x"; bs "a/x/y"; bs "l"; bs "t"].
+  eexists. eexists. exists (bs "a/x/y").
+  split; [vm_compute; reflexivity|]. split; [vm_compute; reflexivity|]. split; [vm_compute; reflexivity|].
+  split; [vm_compute; reflexivity|]. split; [vm_compute; reflexivity|]. split; [vm_compute; reflexivity|].
+  split; vm_compute; discriminate.
+Qed.
